@@ -1,0 +1,11 @@
+//go:build verif
+
+package compilation
+
+// Contracts for gvc (see /verif/DESIGN.md). Comment-only: this file adds no code to any build.
+
+// imports.Process / format.Source are outside the verified subset: the contract is assumed.
+// The event records whether formatting succeeded and what it produced.
+//@ func OptimizeImportsAndFormat trusted
+//@ emits formattedCode(result1 == nil, result0)
+//@ ensures implies(result1 != nil, result0 == "")
